@@ -128,6 +128,17 @@ func vAnd(a, b bool) bool     { return a && b }
 func vOr(a, b bool) bool      { return a || b }
 func vImplies(a, b bool) bool { return !a || b }
 func vNativeSkip(why string)  {}
+func vSameJSON(a, b interface{}) bool {
+	x, err1 := json.Marshal(a)
+	y, err2 := json.Marshal(b)
+	if err1 != nil || err2 != nil {
+		return false
+	}
+	var u, v interface{}
+	json.Unmarshal(x, &u)
+	json.Unmarshal(y, &v)
+	return reflect.DeepEqual(u, v)
+}
 func vRandConcrete(on bool)   {}
 func vTickers(on bool)        {}
 func vTimersEager(on bool)    {}
